@@ -74,6 +74,13 @@ Proof. exact guard_separation. Qed.
 
 (* 'start' mode: every event starts its own run - each accepted put is started exactly once and
    nothing else is (the acceptor's time check makes "at once" part of every accepted history) *)
+(* "at stop ... stop_data processed last": in an observation accepted by the monitor no other run
+   starts or ends once the run for the stop_data (put id) has started *)
+Theorem C12_stop_data_last : forall id pre t post,
+  stop_last id false (pre ++ OStart t id :: post) = true ->
+  forall x, In x post -> ~ other_run_step id x.
+Proof. exact stop_data_last. Qed.
+
 Theorem C12_start_mode_every_event_runs : forall c xs s,
   o_mode c = MStart -> orun c ostate0 xs = Some s -> quiescent s = true ->
   forall id, cnt id (starts_of xs) = cnt id (puts_of xs) /\ (cnt id (puts_of xs) <= 1)%nat.
@@ -98,6 +105,7 @@ Example C12_selfcancel_nonvacuous :
   match orun c ostate0 xs with Some s => quiescent s | None => false end = true.
 Proof. vm_compute. reflexivity. Qed.
 
+Print Assumptions C12_stop_data_last.
 Print Assumptions C12_one_result_per_put.
 Print Assumptions C12_accounting_invariant.
 Print Assumptions C12_wait_one_at_a_time.
